@@ -280,6 +280,34 @@ impl AdfProblemInfo {
     }
 }
 
+/// Registers a task as running and unregisters it again when dropped, i.e., also if the computation panics.
+struct RunningGuard {
+    app_state: web::Data<AppState>,
+    running_info: RunningInfo,
+}
+
+impl RunningGuard {
+    fn new(app_state: web::Data<AppState>, running_info: RunningInfo) -> Self {
+        app_state
+            .currently_running
+            .lock()
+            .unwrap()
+            .insert(running_info.clone());
+        Self {
+            app_state,
+            running_info,
+        }
+    }
+}
+
+impl Drop for RunningGuard {
+    fn drop(&mut self) {
+        if let Ok(mut running) = self.app_state.currently_running.lock() {
+            running.remove(&self.running_info);
+        }
+    }
+}
+
 #[post("/add")]
 async fn add_adf_problem(
     req: HttpRequest,
@@ -404,11 +432,7 @@ async fn add_adf_problem(
                 task: Task::Parse,
             };
 
-            app_state
-                .currently_running
-                .lock()
-                .unwrap()
-                .insert(running_info.clone());
+            let _running_guard = RunningGuard::new(app_state, running_info);
 
             #[cfg(feature = "mock_long_computations")]
             std::thread::sleep(Duration::from_secs(20));
@@ -433,12 +457,6 @@ async fn add_adf_problem(
 
                 (SimplifiedAdf::from(lib_adf), ac_and_graph)
             });
-
-            app_state
-                .currently_running
-                .lock()
-                .unwrap()
-                .remove(&running_info);
 
             result
         }),
@@ -564,11 +582,7 @@ async fn solve_adf_problem(
     let acs_and_graphs_fut = timeout(
         COMPUTE_TIME,
         spawn_blocking(move || {
-            app_state
-                .currently_running
-                .lock()
-                .unwrap()
-                .insert(running_info.clone());
+            let _running_guard = RunningGuard::new(app_state, running_info);
 
             #[cfg(feature = "mock_long_computations")]
             std::thread::sleep(Duration::from_secs(20));
@@ -596,12 +610,6 @@ async fn solve_adf_problem(
                     graph: DoubleLabeledGraph::from_adf_and_ac(&adf, Some(ac)),
                 })
                 .collect();
-
-            app_state
-                .currently_running
-                .lock()
-                .unwrap()
-                .remove(&running_info);
 
             acs_and_graphs
         }),
